@@ -149,6 +149,48 @@ def _norm_header_name(expr):
     return t
 
 
+def _tns_qname(fnode, expr):
+    """The local-name expression (text) of ``'%s:%s' % (P, NAME)`` when P is
+    the prefix of the interface's target namespace; None otherwise."""
+    if not (isinstance(expr, ast.BinOp) and isinstance(expr.op, ast.Mod) and
+            isinstance(expr.left, ast.Constant) and
+            expr.left.value == '%s:%s' and
+            isinstance(expr.right, ast.Tuple) and len(expr.right.elts) == 2):
+        return None
+    pref, name = expr.right.elts
+    vals = [pref]
+    if isinstance(pref, ast.Name):
+        vals = _local_values(fnode, pref.id)
+    if not vals:
+        return None
+    for v in vals:
+        t = unparse(v).replace(' ', '')
+        if isinstance(v, ast.Constant) and v.value == 'tns':
+            continue
+        if t in ('self.interface.get_namespace_prefix(self.interface.'
+                 'get_tns())', 'self.interface.get_namespace_prefix(self.'
+                 'interface.tns)'):
+            continue
+        if isinstance(v, ast.Name) and v.id == 'ns_tns':
+            continue
+        if t == 'self.interface.get_namespace_prefix(ns_tns)' and all(
+                unparse(x).replace(' ', '') in (
+                    'self.interface.get_tns()', 'self.interface.tns')
+                for x in _local_values(fnode, 'ns_tns')):
+            continue
+        return None
+    return unparse(name).replace(' ', '')
+
+
+def _resolved(fnode, expr):
+    """Texts an expression may denote, following one local assignment."""
+    if isinstance(expr, ast.Name):
+        vs = _local_values(fnode, expr.id)
+        if vs:
+            return {unparse(v).replace(' ', '') for v in vs}
+    return {unparse(expr).replace(' ', '')}
+
+
 def rule_r2(prog, res):
     res.rule('R2', 'names built at a definition site and at a reference '
              'site agree')
@@ -189,21 +231,25 @@ def rule_r2(prog, res):
                 c.args[0], ast.Constant) and c.args[0].value == 'message':
             t = unparse(c.args[1]).replace(' ', '')
             for role in ('method.in_message', 'method.out_message'):
-                if t.startswith(role + '.'):
-                    refs[role] = t
+                if (role + '.') in t:
+                    q = _tns_qname(ap.node, c.args[1])
+                    refs[role] = ('tns:' + q) if q is not None else t
     for role in ('method.in_message', 'method.out_message'):
         d = defs.get(role)
         r = refs.get(role)
-        ok = d == role + '.get_element_name()' and r == role + \
-            '.get_element_name_ns(self.interface)'
+        # wsdl:message elements are children of the definitions element, so
+        # their QName is {tns}name whatever the namespace of the class is
+        ok = d == role + '.get_element_name()' and r == 'tns:' + d
         res.ob('R2', ap.where, '%s: message named %s, referenced as %s' % (
             role, d, r), 'ok' if ok else 'VIOLATED')
         if not ok:
             res.finding('R2', 'Wsdl11|message|%s|%s|%s' % (role, d, r),
-                        ap.where, 'the wsdl:message of %s is named %s but '
-                        'referenced as %s (expected get_element_name() / '
-                        'get_element_name_ns(interface) of the same message)'
-                        % (role, d, r))
+                        ap.where, 'the wsdl:message of %s is named %s (in '
+                        'the target namespace of the definitions) but '
+                        'referenced as %s: expected the same name qualified '
+                        'with the prefix of the target namespace; a message '
+                        'class with its own namespace gets a dangling '
+                        'reference' % (role, d, r))
     # operation names: portType and binding use the same attribute
     def op_names(f):
         out = set()
@@ -242,16 +288,26 @@ def rule_r2(prog, res):
                         'wsdl:%s is named %s in the portType but %s in the '
                         'binding' % (bv, sorted(a), sorted(b)))
     # binding name / type and port binding
-    t = unparse(ab.node).replace(' ', '')
-    ok = "binding.set('name',self._get_binding_name(port_type_name))" in t \
-        and "binding.set('type','%s:%s'%(pref_tns,port_type_name))" in t
-    res.ob('R2', ab.where, 'binding name = _get_binding_name(port type), '
-           'binding type = tns:port type', 'ok' if ok else 'VIOLATED')
+    names, types = set(), set()
+    for c in calls_in(ab.node):
+        if call_name(c) == 'set' and len(c.args) == 2 and isinstance(
+                c.args[0], ast.Constant) and unparse(c.func.value) == \
+                'binding':
+            if c.args[0].value == 'name':
+                names |= _resolved(ab.node, c.args[1])
+            elif c.args[0].value == 'type':
+                q = _tns_qname(ab.node, c.args[1])
+                types.add('tns:' + q if q is not None else unparse(c.args[1]))
+    ok = names == {'self._get_binding_name(port_type_name)'} and \
+        types == {'tns:port_type_name'}
+    res.ob('R2', ab.where, 'binding name %s, binding type %s' % (
+        sorted(names), sorted(types)), 'ok' if ok else 'VIOLATED')
     if not ok:
         res.finding('R2', 'Wsdl11.add_bindings_for_methods|binding-names',
-                    ab.where, 'the binding element is not named by '
-                    '_get_binding_name(port_type_name) / typed tns:'
-                    'port_type_name, which is how add_port_type refers to it')
+                    ab.where, 'the binding element is named %s and typed %s, '
+                    'not _get_binding_name(port_type_name) / tns:'
+                    'port_type_name, which is how add_port_type refers to it'
+                    % (sorted(names), sorted(types)))
     t = unparse(ap.node).replace(' ', '')
     ok = 'binding_name=self._get_binding_name(port_type_name)' in t and \
         'binding_name=self._get_binding_name(service_name)' in t
@@ -1171,6 +1227,89 @@ def rule_r16(prog, res):
     res.floor('R16', 'sources of the member table', n, 2)
 
 
+def rule_r17(prog, res):
+    res.rule('R17', 'services that share a port type share its binding '
+             'element (one wsdl:binding per name); classes that refer to '
+             'each other in a cycle are still all published')
+    from ..flow import entails, guards_at, flatten_guards
+    w = prog.cls(WSDL)
+    ab = w.methods.get('add_bindings_for_methods')
+    if ab is None:
+        raise AnalysisError('Wsdl11.add_bindings_for_methods', 'not found')
+    n = 0
+    for loop in walk_no_defs(ab.node):
+        if not (isinstance(loop, ast.For) and
+                unparse(loop.iter) == 'port_type_list'):
+            continue
+        for st in loop.body:
+            for a in ast.walk(st):
+                if not (isinstance(a, ast.Assign) and isinstance(
+                        a.value, ast.Call) and call_name(a.value) ==
+                        'SubElement' and len(a.value.args) == 2 and
+                        unparse(a.value.args[0]) == 'root' and
+                        'binding' in unparse(a.value.args[1]) and
+                        len(a.targets) == 1 and isinstance(
+                            a.targets[0], ast.Name)):
+                    continue
+                n += 1
+                var = a.targets[0].id
+                g = flatten_guards(guards_at(a, stop=loop))
+                guarded = entails(g, '%s is None' % var)
+                # the lookup: a binding of the same name found among the
+                # children of the definitions (or in a registry)
+                lookups = [x for x in ast.walk(loop)
+                           if isinstance(x, ast.Assign) and x is not a and
+                           any(isinstance(t, ast.Name) and t.id == var
+                               for t in x.targets) and not (
+                               isinstance(x.value, ast.Constant) and
+                               x.value.value is None)]
+                ok = guarded and bool(lookups)
+                where = '%s:%d' % (ab.module.relpath, a.lineno)
+                res.ob('R17', where, 'the binding of a port type is created '
+                       '%s' % ('only when none of that name exists yet'
+                               if ok else 'for every service'),
+                       'ok' if ok else 'VIOLATED')
+                if not ok:
+                    res.finding('R17', 'Wsdl11.add_bindings_for_methods|'
+                                'binding-not-shared', where, 'a wsdl:binding '
+                                'element is created for every service that '
+                                'lists the port type: two services sharing a '
+                                'port type give two bindings of the same '
+                                'name, each covering part of the portType')
+    res.floor('R17', 'binding creations per port type', n, 1)
+    t = prog.func('spyne.util.toposort:toposort2')
+    bad = [x for x in walk_no_defs(t.node)
+           if isinstance(x, (ast.Assert, ast.Raise))]
+    loops = [x for x in walk_no_defs(t.node) if isinstance(x, ast.While)]
+    res.floor('R17', 'ordering loops in toposort2', len(loops), 1)
+    # what is left when no item is free of dependencies must be yielded
+    rest = []
+    for lp in loops:
+        for y in ast.walk(lp):
+            if isinstance(y, (ast.Yield, ast.YieldFrom)) and y.value is not \
+                    None and any(isinstance(x, ast.Name) and x.id == 'data'
+                                 for x in ast.walk(y.value)):
+                rest.append(y)
+    for y in walk_no_defs(t.node):
+        if isinstance(y, (ast.Yield, ast.YieldFrom)) and y not in rest and \
+                y.value is not None and any(
+                    isinstance(x, ast.Name) and x.id == 'data'
+                    for x in ast.walk(y.value)):
+            rest.append(y)
+    ok = not bad and bool(rest)
+    res.ob('R17', t.where, 'toposort2: %d assert/raise statements, %d yields '
+           'of the remaining items' % (len(bad), len(rest)),
+           'ok' if ok else 'VIOLATED')
+    if not ok:
+        res.finding('R17', 'toposort2|cycle|%s' % (
+            'asserts' if bad else 'drops'), t.where, 'toposort2 %s when '
+            'the remaining classes depend on each other in a cycle '
+            '(Customer.orders <-> Order.customer): %s' % (
+                'raises' if bad else 'silently drops them',
+                'no schema and no WSDL can be built for the application'
+                if bad else 'their types are referenced but not defined'))
+
+
 def run(prog, res, tier):
     res.run_rule(rule_r1, prog, res, tier)
     res.run_rule(rule_r2, prog, res)
@@ -1188,6 +1327,7 @@ def run(prog, res, tier):
     res.run_rule(rule_r14, prog, res)
     res.run_rule(rule_r15, prog, res)
     res.run_rule(rule_r16, prog, res)
+    res.run_rule(rule_r17, prog, res)
 
 
 _S = 'spyne/interface/xml_schema/_base.py'
@@ -1370,9 +1510,43 @@ MUTANTS = [
            'operation-name'),
     Mutant('input-message-by-type-name', 'R2', 'fire', _W,
            in_func('Wsdl11.add_port_type',
-                   "method.in_message.get_element_name_ns(self.interface))",
-                   "method.in_message.get_type_name_ns(self.interface))"),
+                   "method.in_message.get_element_name()))",
+                   "method.in_message.get_type_name()))"),
            'message'),
+    Mutant('input-message-in-own-namespace', 'R2', 'fire', _W,
+           in_func('Wsdl11.add_port_type',
+                   "            op_input.set('message', '%s:%s' % (pref_tns,\n"
+                   "                                          method.in_message"
+                   ".get_element_name()))\n",
+                   "            op_input.set('message', method.in_message."
+                   "get_element_name_ns(self.interface))\n"), 'message'),
+    Mutant('message-prefix-of-message-class', 'R2', 'fire', _W,
+           in_func('Wsdl11.add_port_type',
+                   "        pref_tns = self.interface.get_namespace_prefix("
+                   "self.interface.get_tns())\n",
+                   "        pref_tns = self.interface.get_namespace_prefix("
+                   "service.get_service_class_name())\n"), 'message'),
+    Mutant('binding-per-service', 'R17', 'fire', _W,
+           in_func('Wsdl11.add_bindings_for_methods',
+                   "                if binding is None:\n",
+                   "                if binding is None or True:\n"),
+           'binding-not-shared'),
+    Mutant('binding-lookup-dropped', 'R17', 'fire', _W,
+           in_func('Wsdl11.add_bindings_for_methods',
+                   "                    if elt.get('name') == binding_name:\n"
+                   "                        binding = elt\n",
+                   "                    pass\n"), 'binding-not-shared'),
+    Mutant('cycle-asserts', 'R17', 'fire', _T,
+           in_func('toposort2',
+                   "            if len(data) > 0:\n"
+                   "                yield sorted(data, key=lambda x:repr(x))\n",
+                   "            assert not data, 'cyclic dependency'\n"),
+           'cycle'),
+    Mutant('cycle-dropped', 'R17', 'fire', _T,
+           in_func('toposort2',
+                   "            if len(data) > 0:\n"
+                   "                yield sorted(data, key=lambda x:repr(x))\n",
+                   ""), 'cycle'),
     Mutant('operation-only-for-sync', 'R3', 'fire', _W,
            in_func('Wsdl11.add_port_type',
                    "            if method.is_callback:\n"
